@@ -293,8 +293,10 @@ class Check:
             lines.append("== %d" % k)
             lines.extend(h)
         sp = self.write_script(tag + ".script", lines)
-        rc, impl, err = self.run_impl(exe, sp, impl_args, env=env, timeout=timeout)
-        model = self.run_model(component, sp, model_args)
+        # the total time limit only guards against a hang of the whole run (single operations that never return are stopped
+        # by the harnesses' own per-line watchdogs); it is generous so that a loaded machine does not turn into an alarm
+        rc, impl, err = self.run_impl(exe, sp, impl_args, env=env, timeout=timeout * (8 if self.tier == "thorough" else 3))
+        model = self.run_model(component, sp, model_args, timeout=1200 * (8 if self.tier == "thorough" else 3))
         self.cov["evaluations"] += sum(len(h) for h in histories)
         self.cov["traces_validated_against_impl"] += len(histories)
         self.cov["programs"] += len(histories)
